@@ -465,32 +465,7 @@ class Body:
         if not defs and not out:
             out.add(Origin('local', l, ()))
         for d in defs:
-            if d[0] == 'stmt':
-                _, bb, si, rv = d
-                k = rv['k']
-                if k == 'use':
-                    out |= self.orig_operand(self.facts.operand(rv['op']), _seen, live)
-                elif k in ('ref', 'rawptr'):
-                    out |= self.orig_place(self.facts.place(rv['pl']), _seen, live)
-                elif k == 'cast':
-                    out |= self.orig_operand(self.facts.operand(rv['op']), _seen, live)
-                elif k == 'aggr':
-                    out.add(Origin('aggr', (bb, si), ()))
-                elif k == 'discr':
-                    out.add(Origin('discr', self.orig_place(self.facts.place(rv['pl']), _seen, live), ()))
-                else:
-                    out.add(Origin('op', (bb, si), ()))
-            else:
-                _, bb, call = d
-                idx = IDENTITY_CALLS.get(call.qname)
-                acc = None if idx is not None else self.facts.accessor_summary(call)
-                if idx is not None and idx < len(call.args):
-                    out |= self.orig_operand(call.args[idx], _seen, live)
-                elif acc is not None and acc[0] < len(call.args):
-                    for o in self.orig_operand(call.args[acc[0]], _seen, live):
-                        out.add(Origin(o.kind, o.key, o.path + acc[1]))
-                else:
-                    out.add(Origin('call', bb, ()))
+            out |= self._orig_def(d, _seen, live)
         res = frozenset(out)
         if len(_seen) == 1 and live is None:
             self._orig_cache[l] = res
@@ -531,6 +506,37 @@ class Body:
                         out.append((c, ai))
                         if c.qname in through and not c.dest[1]:
                             work.append(c.dest[0])
+        return out
+
+    def _orig_def(self, d, _seen=None, live=None):
+        """origins contributed by one definition record (see `defs`)"""
+        out = set()
+        if d[0] == 'stmt':
+            _, bb, si, rv = d
+            k = rv['k']
+            if k == 'use':
+                out |= self.orig_operand(self.facts.operand(rv['op']), _seen, live)
+            elif k in ('ref', 'rawptr'):
+                out |= self.orig_place(self.facts.place(rv['pl']), _seen, live)
+            elif k == 'cast':
+                out |= self.orig_operand(self.facts.operand(rv['op']), _seen, live)
+            elif k == 'aggr':
+                out.add(Origin('aggr', (bb, si), ()))
+            elif k == 'discr':
+                out.add(Origin('discr', self.orig_place(self.facts.place(rv['pl']), _seen, live), ()))
+            else:
+                out.add(Origin('op', (bb, si), ()))
+        else:
+            _, bb, call = d
+            idx = IDENTITY_CALLS.get(call.qname)
+            acc = None if idx is not None else self.facts.accessor_summary(call)
+            if idx is not None and idx < len(call.args):
+                out |= self.orig_operand(call.args[idx], _seen, live)
+            elif acc is not None and acc[0] < len(call.args):
+                for o in self.orig_operand(call.args[acc[0]], _seen, live):
+                    out.add(Origin(o.kind, o.key, o.path + acc[1]))
+            else:
+                out.add(Origin('call', bb, ()))
         return out
 
     def origin_calls(self, origins):
@@ -630,6 +636,116 @@ class Body:
                 if t['k'] != 'switch':
                     continue
                 subj = self._switch_subject(self.facts.operand(t['op']), live)
+                arms = self.succ[bb]
+                listed = [lab[2] for _, lab in arms if lab[2] != 'otherwise']
+                for k, (_, lab) in enumerate(arms):
+                    node = ('e', bb, k)
+                    if node in dead or base_avoid(node):
+                        continue
+                    g = Guard(self, bb, k, subj, lab[2], listed)
+                    if not g.feasible_by_constants():
+                        new.add(node)
+            if not new:
+                return avoid, seen
+            dead |= new
+
+    def _rd_chain_local(self, op):
+        """follow single-definition copies / negations of a switch operand to the local that is really tested"""
+        if op[0] not in ('c', 'm') or op[1][1]:
+            return None, False
+        local = op[1][0]
+        neg = False
+        seen = set()
+        while local not in seen:
+            seen.add(local)
+            defs = self.defs.get(local, [])
+            if len(defs) != 1 or defs[0][0] != 'stmt':
+                break
+            rv = defs[0][3]
+            a = None
+            if rv['k'] == 'un' and rv['uop'] == 'Not':
+                a = self.facts.operand(rv['a'])
+                flip = True
+            elif rv['k'] == 'use':
+                a = self.facts.operand(rv['op'])
+                flip = False
+            if a is None or a[0] not in ('c', 'm') or a[1][1]:
+                break
+            if flip:
+                neg = not neg
+            local = a[1][0]
+        return local, neg
+
+    def reaching_defs_from(self, local, start, seen):
+        """Definitions of `local` that may reach each node of `seen` (the region explored from `start`):
+        those that may reach `start` from the function entry, killed/replaced along the way."""
+        defs = self.defs.get(local, [])
+        if not defs:
+            return None
+        by_block = {}
+        for i, d in enumerate(defs):
+            by_block.setdefault(d[1], []).append(i)
+        dblocks = set(by_block)
+        sblock = start[1] if isinstance(start, tuple) else start
+        init = set()
+        for i, d in enumerate(defs):
+            r = self.reach(self.xsucc(d[1]), avoid=lambda n: n in dblocks and n != d[1])
+            if start in r or sblock in r or d[1] == sblock:
+                init.add(i)
+        if 1 <= local <= self.argc:
+            init.add(-1)
+        state = {start: set(init)}
+        work = [start]
+        while work:
+            n = work.pop()
+            cur = state[n]
+            if not isinstance(n, tuple) and n in by_block:
+                out = {by_block[n][-1]}
+            else:
+                out = cur
+            for m in self.xsucc(n):
+                if m not in seen:
+                    continue
+                old = state.get(m)
+                if old is None:
+                    state[m] = set(out)
+                    work.append(m)
+                elif not out <= old:
+                    old |= out
+                    work.append(m)
+        return state, defs
+
+    def refine_from(self, base_avoid, start, stop=lambda n: False):
+        """Like refine, but for the region explored from an inner node `start` (e.g. one switch edge),
+        using reaching definitions from that node: a flag assigned on the way kills older values."""
+        dead = set()
+        while True:
+            def avoid(n, dead=dead):
+                return base_avoid(n) or n in dead
+            seen = self.reach([start], avoid=avoid, stop=stop)
+            new = set()
+            for bb in [n for n in seen if not isinstance(n, tuple)]:
+                t = self.blocks[bb]['term']
+                if t['k'] != 'switch':
+                    continue
+                local, neg = self._rd_chain_local(self.facts.operand(t['op']))
+                if local is None or len(self.defs.get(local, [])) < 2:
+                    continue
+                rd = self.reaching_defs_from(local, start, seen)
+                if rd is None:
+                    continue
+                state, defs = rd
+                reach_here = state.get(bb, set())
+                if bb in {d[1] for d in defs}:
+                    idxs = [i for i, d in enumerate(defs) if d[1] == bb]
+                    reach_here = {idxs[-1]}
+                if -1 in reach_here or not reach_here:
+                    continue
+                os_ = set()
+                for i in reach_here:
+                    os_ |= self._orig_def(defs[i], {local}, None)
+                ty = self.local_ty(local)
+                subj = ('bool', frozenset(os_), neg) if ty == 'bool' else ('int', frozenset(os_), None)
                 arms = self.succ[bb]
                 listed = [lab[2] for _, lab in arms if lab[2] != 'otherwise']
                 for k, (_, lab) in enumerate(arms):
